@@ -6,6 +6,7 @@ import (
 	"crypto/sha512"
 	"encoding/binary"
 	"fmt"
+	"math/big"
 	"runtime/metrics"
 
 	"github.com/cloudflare/circl/oprf"
@@ -32,7 +33,7 @@ func init() {
 			"every truncation and single-byte extension of honest encodings, every length/count field set to {0,1,actual-1,actual+1,2^k-1,2^k}, varints re-encoded in 1/2/4/8 bytes up to 2^62-1, every type tag, splices, seeded bit flips and random strings behind valid headers. " +
 			"Oracle per call: it returns (no panic, no process death, no CPU-time stall) and allocates at most C + S*len(input) bytes (runtime/metrics /gc/heap/allocs:bytes; C and S calibrated at start-up as 8x the largest honest allocation and 8x the largest honest bytes-per-input-byte ratio). Each call is journalled before it is made; workers run under RLIMIT_AS. " +
 			"A second, coverage-guided stage runs Go's native fuzzer (FuzzC03 in props/fuzz_test.go: mutated (target, input) pairs seeded with the honest and the well-framed hostile encodings, same oracle) for 40 000 / 4 000 000 executions. distinct_nontrivial = distinct (target, outcome, mutation family) triples",
-		Floors:            []string{"calls_returned", "outcome_accept", "outcome_reject", "family_truncate", "family_lenfield", "family_varint", "family_tag", "family_random", "family_extend", "family_rebuild", "type3_sealed_response_selfcheck_ok"},
+		Floors:            []string{"calls_returned", "outcome_accept", "outcome_reject", "family_truncate", "family_lenfield", "family_varint", "family_tag", "family_random", "family_extend", "family_rebuild", "type3_sealed_response_selfcheck_ok", "malformed_by_construction_rejected"},
 		Assumptions:       []string{"amd64", "ed25519.Verify is only ever given a 32-byte public key (a different key length is a documented caller-side precondition, not peer data)"},
 		HostileBytes:      true,
 		StallIsViolation:  true,
@@ -64,6 +65,10 @@ type c03Target struct {
 	call   func(b []byte) bool
 	// rebuild returns well-framed encodings with hostile content
 	rebuild func(r *core.Rand) [][]byte
+	// malformed returns inputs that are malformed BY CONSTRUCTION (an element that is no group-element encoding, a
+	// scalar or integer out of range): the statement's last sentence applies - they are reported through the error
+	// or false result, never served
+	malformed func(r *core.Rand) [][]byte
 }
 
 type c03World struct {
@@ -110,6 +115,14 @@ func (w *c03World) invoke(t *c03Target, family string, in []byte) {
 	}
 	if delta > w.maxDelta {
 		w.maxDelta = delta
+	}
+	if accepted && family == "malformed" {
+		c.Violation("malformed-accepted:"+t.name, t.name+" returned success for an input that is malformed by construction (an element or scalar that is not a valid encoding)",
+			map[string]any{"target": t.name, "input": core.Hex(in), "input_len": len(in)})
+		return
+	}
+	if family == "malformed" {
+		c.Class("malformed_by_construction_rejected")
 	}
 	if accepted {
 		c.Class("outcome_accept")
@@ -255,6 +268,13 @@ func (w *c03World) mutate(t *c03Target, seed []byte, family string, r *core.Rand
 				}
 			}
 		}
+	case "malformed":
+		if t.malformed == nil || !bytesEq(seed, t.seeds[0]) {
+			return
+		}
+		for _, b := range t.malformed(r) {
+			w.invoke(t, "malformed", b)
+		}
 	case "rebuild":
 		if t.rebuild == nil {
 			return
@@ -319,7 +339,7 @@ func (w *c03World) mutate(t *c03Target, seed []byte, family string, r *core.Rand
 	}
 }
 
-var c03Families = []string{"truncate", "extend", "lenfield", "varint", "tag", "bitflip", "random", "rebuild"}
+var c03Families = []string{"truncate", "extend", "lenfield", "varint", "tag", "bitflip", "random", "rebuild", "malformed"}
 
 func runC03(c *core.Ctx) {
 	w := &c03World{c: c}
@@ -459,6 +479,13 @@ func (w *c03World) build() {
 			return iss1.Verify(t) == nil
 		}})
 	w.add(&c03Target{name: "type1.TokenRequest.Unmarshal+Evaluate", seeds: [][]byte{req1}, tagged: true, rebuild: rebuildType1Request,
+		malformed: func(r *core.Rand) [][]byte {
+			var out [][]byte
+			for _, el := range p384InvalidEncodings(r) {
+				out = append(out, append(clone(req1[:3]), el...))
+			}
+			return out
+		},
 		call: func(b []byte) bool {
 			req := new(type1.BasicPrivateTokenRequest)
 			if !req.Unmarshal(b) {
@@ -469,6 +496,18 @@ func (w *c03World) build() {
 			return err == nil
 		}})
 	w.add(&c03Target{name: "type1.FinalizeToken", seeds: [][]byte{resp1},
+		malformed: func(r *core.Rand) [][]byte {
+			var out [][]byte
+			for _, el := range p384InvalidEncodings(r) {
+				out = append(out, append(clone(el), resp1[49:]...))
+			}
+			// proof scalars that are not below the group order
+			nb := elliptic.P384().Params().N.FillBytes(make([]byte, 48))
+			for _, sc := range [][]byte{nb, ff(48)} {
+				out = append(out, append(append(clone(resp1[:49]), sc...), resp1[97:]...), append(clone(resp1[:97]), sc...))
+			}
+			return out
+		},
 		call: func(b []byte) bool { _, err := st1.FinalizeToken(b); return err == nil }})
 
 	// ---- type 2
@@ -483,6 +522,12 @@ func (w *c03World) build() {
 	w.add(&c03Target{name: "type2.UnmarshalToken", seeds: [][]byte{tok2.Marshal()}, tagged: true,
 		call: func(b []byte) bool { _, err := type2.UnmarshalToken(b); return err == nil }})
 	w.add(&c03Target{name: "type2.TokenRequest.Unmarshal+Evaluate", seeds: [][]byte{req2}, tagged: true, rebuild: rebuildType2Request,
+		malformed: func(r *core.Rand) [][]byte {
+			// blinded messages that are not below the modulus
+			nb := rk[0].N.FillBytes(make([]byte, 256))
+			np1 := new(big.Int).Add(rk[0].N, big.NewInt(1)).FillBytes(make([]byte, 256))
+			return [][]byte{append(clone(req2[:3]), ff(256)...), append(clone(req2[:3]), nb...), append(clone(req2[:3]), np1...)}
+		},
 		call: func(b []byte) bool {
 			req := new(type2.BasicPublicTokenRequest)
 			if !req.Unmarshal(b) {
@@ -526,6 +571,30 @@ func (w *c03World) build() {
 			return iss5.Verify(t) == nil
 		}})
 	w.add(&c03Target{name: "type5.TokenRequest.Unmarshal+Evaluate", seeds: req5s, tagged: true, fields: varintAt(3), rebuild: rebuildType5Request,
+		malformed: func(r *core.Rand) [][]byte {
+			// each honest request with each of its elements, in turn, replaced by a string that is no ristretto255 encoding
+			var out [][]byte
+			for _, q := range req5s {
+				_, k := refVarintDec(q[3:])
+				if k < 0 {
+					continue
+				}
+				n := (len(q) - 3 - k) / 32
+				for slot := 0; slot < n && slot < 6; slot++ {
+					for _, bad := range ristrettoInvalidEncodings(r)[:4] {
+						b := clone(q)
+						copy(b[3+k+32*slot:], bad)
+						out = append(out, b)
+					}
+				}
+				if n > 6 {
+					b := clone(q)
+					copy(b[3+k+32*(n-1):], ristrettoInvalidEncodings(r)[0])
+					out = append(out, b)
+				}
+			}
+			return out
+		},
 		call: func(b []byte) bool {
 			req := new(type5.BatchedPrivateTokenRequest)
 			if !req.Unmarshal(b) {
